@@ -128,6 +128,11 @@ pub struct C08 {
     /// setters are independent; the trainer happens to call them the other way round)
     #[serde(default)]
     pub setters_swapped: bool,
+    /// every instance except the reference ones calls iter(loader) twice in a row after the setters
+    /// (`for b in iter(loader)` does: `__iter__` returns the loader itself and the for statement calls
+    /// it again); the second call must build the same stream as the first
+    #[serde(default)]
+    pub iter_twice: bool,
 }
 
 fn tok_cfg(t: &Tok) -> TokenizerConfig {
@@ -520,6 +525,7 @@ impl Scenario for C08 {
             trainer_pattern: rng.chance(0.5),
             poll_after_end: false,
             setters_swapped: false,
+            iter_twice: false,
             consumer_pause: if rng.chance(0.2) { Some((rng.below(3) as u8, rng.range(520_000, 6_000_000) as u32)) } else { None },
         }
         .with_batch(&mut rng)
@@ -687,6 +693,12 @@ impl Scenario for C08 {
                 true
             });
         }
+        if self.iter_twice {
+            push(&|c| {
+                c.iter_twice = false;
+                true
+            });
+        }
         if self.trainer_pattern {
             push(&|c| {
                 c.trainer_pattern = false;
@@ -816,6 +828,7 @@ impl C08 {
         self.batch_limit = if self.padded_item_size { rng.usize(20, 300) } else { rng.usize(0, 6) };
         self.poll_after_end = rng.chance(0.3);
         self.setters_swapped = rng.chance(0.4);
+        self.iter_twice = rng.chance(0.3);
         self
     }
 
@@ -907,6 +920,10 @@ impl Exec<'_> {
         if swapped && inst.ff > 0 {
             self.stats.fault("set_fast_forward_called_before_set_epoch");
         }
+        let iter_twice = sc.iter_twice && !inst.label.starts_with('R');
+        if iter_twice {
+            self.stats.fault("iter_called_twice_in_a_row_after_the_setters");
+        }
         let poll_again = sc.poll_after_end && !inst.label.starts_with('R');
         if poll_again {
             self.stats.fault("next_called_again_after_the_end_of_the_epoch");
@@ -962,6 +979,12 @@ impl Exec<'_> {
             if let Err(e) = drv.iter() {
                 slot2.lock().unwrap().1 = Some(format!("iter: {e:#}"));
                 return;
+            }
+            if iter_twice {
+                if let Err(e) = drv.iter() {
+                    slot2.lock().unwrap().1 = Some(format!("second iter in a row: {e:#}"));
+                    return;
+                }
             }
             if let Some(m) = reiterate_after {
                 let mut seen = 0usize;
